@@ -368,6 +368,15 @@ def cases():
         bad = ('raw', "_ctl 'a\x01b'")
         els.insert(1, bad)
         add('disallowed character', hn, doc, 104, bad, None, next_el=els[2] if len(els) > 2 else None, window=(render(doc)[1][id(bad)][0],) * 2)
+        # every class of disallowed character (C0 and C1 controls, DEL, non-characters), in every lexical context
+        for cname, ch in (('U+0008', '\x08'), ('DEL', '\x7f'), ('U+0080', '\u0080'), ('NEL', '\u0085'), ('U+009F', '\u009f'), ('U+FDD0', '\ufdd0'), ('U+FFFE', '\ufffe'), ('U+1FFFF', '\U0001ffff')):
+            for ctx, text in (('quoted', "_ctl 'a%sb'"), ('bare', '_ctl a%sb'), ('comment', '_ctl 1 # c%sd'), ('text', '_ctl\n;t%su\n;'), ('triple', "_ctl '''t%su'''"), ('list', '_ctl [a%sb c]')):
+                doc = copy.deepcopy(host)
+                els = doc[0][2]
+                bad = ('raw', text % ch)
+                els.insert(1, bad)
+                m0 = render(doc)[1][id(bad)]
+                add('disallowed character', '%s %s in %s' % (hn, cname, ctx), doc, 104, bad, None, next_el=els[2] if len(els) > 2 else None, window=(m0[0], m0[1]))
     # --- list / table defects (CIF 2.0) ---
     base = [('block', 'b', [I('_a', '1'), I('_z', 'end')])]
 
